@@ -1,8 +1,9 @@
 CONSTANTS
-  NFonts = 2
-  Family = "gen2full"
+  NFontsSet = {2, 3, 4}
+  Family = "genfull"
   BugSet = {"none"}
   IdfSet = {FALSE}
+  ShapeK = 1
   IgnSet = {{}}
 INIT Init
 NEXT GenNext
